@@ -1,6 +1,7 @@
 From Coq Require Extraction ExtrOcamlBasic.
 From Common Require Import Words.
-From ServerWrite Require Import ServerWriteSpec ServerWriteModel ServerWrite2Spec ServerWrite2Model.
+From ServerWrite Require Import ServerWriteSpec ServerWriteModel ServerWrite2Spec ServerWrite2Model ServerWriteMonitor.
 Extraction Language OCaml.
 Extraction "model.ml" anchor init step spec_init spec_step getSendBufferSize isSuspended
-  init2 step2 spec_init2 spec_step2 get2 sget any_void.
+  init2 step2 spec_init2 spec_step2 get2 sget any_void
+  mon_init mon_step.
